@@ -15,7 +15,9 @@ draws random sleep ranks.  Every record is run through the REAL accelforge.util.
 parallel(): the completion order is imposed with file barriers (job k of the order waits
 for the flag of job k-1) or with per-job sleeps rank*delta, on joblib's default loky
 process backend and on the threading backend, for list / dict / generator /
-generator_unordered calls.  What parallel() returns is compared with what TLC printed.
+generator_unordered calls, and -- a third, fully deterministic way -- through the guarded
+schedule hook in parallel.py (ACCELFORGE_VERIF_SCHEDULE: execution and arrival priorities).
+What parallel() returns is compared with what TLC printed.
 
 Binding C: every job appends "s i" / "e i" to a log under an flock (its line number is the
 completion sequence number).  The observed order -- whatever it was -- and the returned
@@ -86,6 +88,12 @@ def _pmod():
     return importlib.import_module("accelforge.util.parallel")
 
 
+def hook_available():
+    P = _pmod()
+    v = getattr(P, "_verif", None)
+    return bool(v and v.enabled() and hasattr(v, "scheduled") and hasattr(v, "_schedule"))
+
+
 def _nap(s):
     time.sleep(s)
     return 0
@@ -118,7 +126,19 @@ class Runner:
         deadline = time.time() + budget
         after = {}
         order = imposed_order(case, how)
-        if how.get("impose") in ("barrier", "barrier-rank"):
+        hook = backend == "hook"
+        if hook:
+            # the guarded schedule hook in parallel.py: jobs run in-process in `exec` priority
+            # order and their results reach the collecting code in `arrive` priority order
+            pos = {j: k for k, j in enumerate(order)}
+            arrive = [pos[i] for i in range(n)]
+            other = imposed_order(case, {"impose": "barrier-rank" if how.get("impose") == "barrier" else "barrier"})
+            opos = {j: k for k, j in enumerate(other)}
+            sched = os.path.join(d, "schedule.json")
+            with open(sched, "w") as f:
+                json.dump([{"exec": [opos[i] for i in range(n)] or [0], "arrive": arrive or [0]}], f)
+            htrace = os.path.join(d, "hooktrace.ndjson")
+        elif how.get("impose") in ("barrier", "barrier-rank"):
             for pos, j in enumerate(order):
                 after[j] = order[pos - 1] if pos > 0 else None
         jobs = []
@@ -136,7 +156,7 @@ class Runner:
                     ctl["after"] = after.get(i)
                 if settle and after.get(i) is not None:
                     ctl["delay"] = settle
-            else:
+            elif not hook:
                 ctl["delay"] = order.index(i) * case.get("_delta", delta)
             jobs.append(P.delayed(job)(case["args"][i], i, ctl=ctl))
         keys = [key_of(k) for k in case["keys"]]
@@ -146,10 +166,18 @@ class Runner:
         if pbar:
             kw["pbar"] = "c32"
         old = (P.N_PARALLEL_PROCESSES, P.PARALLELIZE)
+        oldenv = {k: os.environ.get(k) for k in ("ACCELFORGE_VERIF_SCHEDULE", "ACCELFORGE_VERIF_TRACE")}
         try:
             if how.get("n_jobs") != "explicit":
                 P.set_n_parallel_jobs(w)
-            with joblib.parallel_config(backend=backend), contextlib.redirect_stderr(io.StringIO()):
+            if hook:
+                os.environ["ACCELFORGE_VERIF_SCHEDULE"] = sched
+                os.environ["ACCELFORGE_VERIF_TRACE"] = htrace
+                P._verif._schedule = None          # the hook caches the schedule file: one file per call
+                cfg = contextlib.nullcontext()
+            else:
+                cfg = joblib.parallel_config(backend=backend)
+            with cfg, contextlib.redirect_stderr(io.StringIO()):
                 if mode == "dict":
                     got = P.parallel(dict(zip(keys, jobs)), **kw)
                 elif mode == "list":
@@ -158,12 +186,27 @@ class Runner:
                     got = list(P.parallel(jobs, return_as=mode, **kw))
         finally:
             P.N_PARALLEL_PROCESSES, P.PARALLELIZE = old
+            for k, v in oldenv.items():
+                if v is None:
+                    os.environ.pop(k, None)
+                else:
+                    os.environ[k] = v
         events = []
         log = os.path.join(d, "log")
         if os.path.exists(log):
             for ln in open(log):
                 a, b = ln.split()
                 events.append([a, int(b)])
+        if hook and os.path.exists(htrace):
+            calls = [json.loads(ln) for ln in open(htrace) if ln.strip()]
+            calls = [c for c in calls if c.get("event") == "Call"]
+            if len(calls) == 1:
+                # what the hook says it did: started in exec order, delivered in arrive order
+                # (the job-side log only knows the execution order)
+                started = [j for ev, j in events if ev == "s"]
+                if started != calls[0]["exec"]:
+                    raise Machinery("schedule hook: jobs started in %s, hook reports %s" % (started, calls[0]["exec"]))
+                events = [["s", j] for j in calls[0]["exec"]] + [["e", j] for j in calls[0]["arrive"]]
         shutil.rmtree(d, ignore_errors=True)
         return project(mode, got, keys, case["keys"]), events
 
@@ -354,13 +397,15 @@ def run(ck: Check):
     pp = os.environ.get("PYTHONPATH", "")
     if VERIF not in pp.split(os.pathsep):
         os.environ["PYTHONPATH"] = (pp + os.pathsep if pp else "") + VERIF
-    ck.rule = ("cases = behaviours of spec/ParallelRunner.tla printed by TLC (all for n<=%d,w<=%d; -simulate for "
-               "n<=64,w<=16) and random sleep-rank vectors; each is run through the real parallel() on the loky "
-               "and threading backends as list/dict/generator/generator_unordered call; returned value compared "
+    ck.rule = ("cases = behaviours of spec/ParallelRunner.tla printed by TLC (all for n<=%d, w in %s; -simulate for "
+               "n<=64,w<=16) and random rank vectors; each is run through the real parallel() via the schedule "
+               "hook, on the threading backend and on the loky backend as list/dict/generator/"
+               "generator_unordered call; returned value compared "
                "with TLC's and the recorded execution validated by Trace_ParallelRunner. Non-trivial = at least "
                "two jobs and the jobs actually completed out of job order; distinct by (variant, backend, n, "
-               "observed completion order)." % ((5, 5) if thorough else (4, 4)))
+               "observed completion order)." % ((5, "1..5") if thorough else (4, "{1,2,4}")))
     ck.trusted += ["checks/c32.py: job() (barrier/sleep + flock'ed sequence log), project() (return value -> ret)",
+                   "accelforge/util/_verif.py schedule hook (guarded by ACCELFORGE_VERIF=1) for the hook runs",
                    "joblib backends (loky, threading) selected with joblib.parallel_config"]
     ck.assumptions += ["job functions are picklable module-level functions called through joblib.delayed, as "
                        "the callers in accelforge do; results are plain ints",
@@ -389,6 +434,15 @@ def run(ck: Check):
     _t(ck, "generators done: %d exhaustive, %d simulated schedules with sleep ranks" % (len(exh), len(sim)))
 
     book = Book()
+    # schedule hook in parallel.py (in-process, any order is feasible): TLC's schedule as arrival
+    # order with TLC's rank vector as execution order, and the other way round
+    if hook_available():
+        _drive(ck, book, exh + sim, "hook", "barrier")
+        _drive(ck, book, [c for c in sim if c["n"] >= 2], "hook", "barrier-rank")
+        ck.extra["schedule_hook"] = "used: %d calls" % len(book.items)
+    else:
+        ck.extra["schedule_hook"] = "not available in this accelforge tree (ACCELFORGE_VERIF hook missing)"
+    _t(ck, "schedule hook done: %d calls" % len(book.items))
     t0 = time.time()
     # threading backend: no batching, in-order dispatch -> TLC's schedules are imposed exactly
     _drive(ck, book, exh + sim, "threading", "barrier", procs=8)
@@ -433,6 +487,11 @@ def run(ck: Check):
         rng.shuffle(pool)
         _drive(ck, book, pool[:per_w], "loky", "barrier-rank", settle=0.001, budget=6.0)
         _t(ck, "loky w=%d done: %d calls so far" % (w, len(book.items)))
+    try:  # do not leave the worker processes to interpreter exit (slow)
+        from joblib.externals.loky import get_reusable_executor
+        get_reusable_executor().shutdown(wait=True, kill_workers=True)
+    except Exception:  # noqa
+        pass
     ck.extra["wall_loky_s"] = round(time.time() - t0, 1)
     ck.extra["loky_worker_counts"] = loky_ws
     ck.extra["loky_dict_worker_counts"] = sorted(dict_ws)
@@ -473,10 +532,10 @@ def run(ck: Check):
         s["w"] = sorted(s["w"])
     ck.extra["backends"] = book.stats
     ck.extra["traces_accepted_by_TLC"] = len(accepted)
-    ck.extra["exhaustive_parts"] = ["all completion orders feasible with in-order dispatch for n<=%d, w<=%d, "
-                                    "4 variants (threading backend, imposed by barriers)"
-                                    % ((5, 5) if thorough else (4, 4))]
-    ck.extra["not_covered"] = ("schedule hook inside joblib (no hook in /repo); Apalache inductive run; on loky "
+    ck.extra["exhaustive_parts"] = ["all completion orders feasible with in-order dispatch for n<=%d, w in %s, "
+                                    "4 variants (schedule hook; threading backend with barriers)"
+                                    % ((5, "1..5") if thorough else (4, "{1,2,4}"))]
+    ck.extra["not_covered"] = ("Apalache inductive run; on loky "
                                "the dict variant runs with <= 4 workers in the quick tier and with 1,2,3,4,8,16 "
                                "workers in the thorough tier (all 1..16 on the threading backend); pools larger "
                                "than the job count cannot impose an order with sleeps when joblib batches jobs")
